@@ -376,6 +376,9 @@ class BaseRollPass(DiskElementUnit, DeformationUnit, ABC):
 
 
 def rotator_factory(roll_pass: BaseRollPass):
+    # decide from the arrangement at hand, not from the value cached by an earlier solve
+    # (units may have been inserted or removed, the global switch changed since)
+    roll_pass.__cache__.pop("rotation", None)
     if roll_pass.rotation:
         return Rotator(
             # make True determining from hook functions
